@@ -83,6 +83,29 @@ func getNonPluginExtendedCriticalAttributes(signerInfo *signature.SignerInfo) []
 	return criticalExtendedAttrs
 }
 
+// verifyCriticalAttributesProcessable fails if the signature carries a critical
+// extended attribute that nothing is able to process: only a verification
+// plugin can process extended attributes, and only string keyed ones can be
+// handed to it.
+func verifyCriticalAttributesProcessable(signerInfo *signature.SignerInfo, hasVerificationPlugin bool) error {
+	for _, attr := range signerInfo.SignedAttributes.ExtendedAttributes {
+		if !attr.Critical {
+			continue
+		}
+		attrStrKey, ok := attr.Key.(string)
+		if !ok {
+			return fmt.Errorf("extended critical attribute %v cannot be processed (only attributes with string keys can be processed by a verification plugin)", attr.Key)
+		}
+		if slices.Contains(VerificationPluginHeaders, attrStrKey) {
+			continue
+		}
+		if !hasVerificationPlugin {
+			return fmt.Errorf("extended critical attribute %q cannot be processed since the signature does not specify a verification plugin", attrStrKey)
+		}
+	}
+	return nil
+}
+
 // extractCriticalStringExtendedAttribute extracts a critical string Extended
 // attribute from a signer.
 func extractCriticalStringExtendedAttribute(signerInfo *signature.SignerInfo, key string) (string, error) {
